@@ -157,7 +157,7 @@ func evalChunk(c *Ctx, specs []*Spec, out []*ProgEval, base int, o PipeOpts) {
 	}
 	mb.WriteString(")\n\nfunc main() {\n")
 	for _, n := range runnable {
-		fmt.Fprintf(&mb, "\trunProg(%q, %s.Drive)\n", n, n)
+		fmt.Fprintf(&mb, "\trunProg(%q, %s.ZzDrive)\n", n, n)
 	}
 	mb.WriteString("}\n")
 	if err := WriteTree(w.Dir, map[string]string{"cmd/run/main.go": mb.String(), "cmd/run/tree.go": RunnerHelper}); err != nil {
